@@ -145,7 +145,7 @@ Proof.
     intros a l _ IH Hfa. constructor; [exact IH|].
     rewrite Forall_forall in *. intros x Hx. unfold lt_o, ltb_of.
     specialize (Hfa x Hx). lia.
-  - apply SS_rev in H.
+  - rewrite <- rev_alt. apply SS_rev in H.
     eapply StronglySorted_ind with (P := fun l => StronglySorted (lt_o Desc) l);
       [constructor| |exact H].
     intros a l _ IH Hfa. constructor; [exact IH|].
@@ -154,10 +154,10 @@ Proof.
 Qed.
 
 Lemma view_In o coll k : In k (view o coll) <-> In k coll.
-Proof. destruct o; cbn [view]; [tauto|]. symmetry. apply in_rev. Qed.
+Proof. destruct o; cbn [view]; [tauto|]. rewrite <- rev_alt. symmetry. apply in_rev. Qed.
 
 Lemma view_length o coll : length (view o coll) = length coll.
-Proof. destruct o; cbn [view]; [reflexivity|apply rev_length]. Qed.
+Proof. destruct o; cbn [view]; [reflexivity|rewrite <- rev_alt; apply rev_length]. Qed.
 
 (* everything strictly after key k of a sorted list is the part behind k *)
 Lemma filter_after_split o v pre k rest :
